@@ -579,6 +579,7 @@ def run_session_case(ctx, seed, nodes, proto, acts, kind, pos, p_preempt):
 def run_session(ctx, budget_s):
     from vlib.run import Inconclusive
     from sim.world import WorldLimit
+    import gc
     rng = ctx.rng
     base = ctx.seed * 1000003 + (ctx.worker or 0) * 100003
     nh = 0
@@ -594,6 +595,8 @@ def run_session(ctx, budget_s):
                 if ctx.time_left(budget_s) < 0:
                     break
                 seed = hseed + pos
+                gc.collect()            # garbage of earlier worlds must not be finalised inside this one (reproducibility from the seed)
+                gc.disable()
                 try:
                     viol, harness, sig, info, events = run_session_case(ctx, seed, nodes, proto, acts, kind, pos, p_preempt)
                 except WorldLimit:
@@ -601,6 +604,8 @@ def run_session(ctx, budget_s):
                     continue
                 except Exception as e:        # noqa
                     raise Inconclusive("session case seed %d (%s before action %d) failed in the harness: %s: %s" % (seed, kind, pos, type(e).__name__, e))
+                finally:
+                    gc.enable()
                 if harness:
                     raise Inconclusive("harness error in session case seed %d (%s before action %d): %r" % (seed, kind, pos, harness[:2]))
                 if not info['applicable']:
